@@ -274,6 +274,45 @@ class Cfg:
         self.__dict__.update(kw)
 
 
+def tune_to_tree(cfg, top_sn, rng, keep=.3):
+    """A copy of cfg whose vocabulary is mostly drawn from the tree itself (names, ids, classes, attribute names and
+    values that actually occur), so that far fewer generated selectors designate nothing."""
+    import copy
+    names, ids, classes, attrs, vals = set(), set(), set(), set(), set()
+
+    def rec(n):
+        for k in n.kids:
+            if k.kind == 'el':
+                names.add(k.name)
+                for (key, ans, alocal, v) in k.attrs:
+                    if ans is not None or ':' in key:
+                        continue
+                    if key == 'id' and isinstance(v, str):
+                        ids.add(v)
+                    elif key == 'class':
+                        classes.update(v if isinstance(v, (list, tuple)) else str(v).split())
+                    else:
+                        attrs.add(key)
+                        if isinstance(v, str):
+                            vals.add(v)
+                            vals.update(w for w in v.split() if w)
+                rec(k)
+    rec(top_sn)
+    c = copy.copy(cfg)
+
+    def mix(own, base):
+        own = [x for x in own if isinstance(x, str) and x != ''] or list(base)
+        base = list(base)
+        k = max(1, int(len(own) * keep))
+        return own + rng.sample(base, min(len(base), k))
+    c.names = mix(names, cfg.names)
+    c.ids = mix(ids, cfg.ids)
+    c.classes = mix(classes, cfg.classes)
+    c.attrs = mix(attrs, cfg.attrs)
+    c.vals = mix(vals, cfg.vals) + ['']
+    return c
+
+
 def _case(rng, s):
     r = rng.random()
     if r < .5:
